@@ -38,16 +38,25 @@ pub proof fn lemma_im_sv_mod(s: Sign, m: int, d: int)
 {
     lemma_im_neg_mod(m, d);
 }
-/// the gcd of the magnitudes is the gcd of the signed numbers
+/// the gcd of the magnitudes is the gcd of the signed numbers -- whatever the signs (gcd ignores them: the macro arm discards its
+/// sign arguments, so the statement must not depend on WHICH signs the forwarding macro hands over)
 pub proof fn lemma_im_gcd_signs(s0: Sign, m0: int, s1: Sign, m1: int)
-    ensures forall|g: int| #[trigger] gcdo_is_gcd(g, m0, m1) ==> gcdo_is_gcd(g, sv(s0, m0), sv(s1, m1)),
+    ensures forall|g: int| #[trigger] gcdo_is_gcd(g, m0, m1) ==> gcdo_is_gcd(g, -m0, m1),
+        forall|g: int| #[trigger] gcdo_is_gcd(g, m0, m1) ==> gcdo_is_gcd(g, m0, -m1),
+        forall|g: int| #[trigger] gcdo_is_gcd(g, m0, m1) ==> gcdo_is_gcd(g, -m0, -m1),
 {
-    assert forall|g: int| #[trigger] gcdo_is_gcd(g, m0, m1) implies gcdo_is_gcd(g, sv(s0, m0), sv(s1, m1)) by {
-        lemma_im_sv_mod(s0, m0, g); lemma_im_sv_mod(s1, m1, g);
-        assert forall|d: int| d >= 1 && #[trigger] (sv(s0, m0) % d) == 0 && sv(s1, m1) % d == 0 implies g % d == 0 by {
-            lemma_im_sv_mod(s0, m0, d); lemma_im_sv_mod(s1, m1, d);
-            assert(m0 % d == 0 && m1 % d == 0);
-        }
+    assert forall|g: int| #[trigger] gcdo_is_gcd(g, m0, m1) implies gcdo_is_gcd(g, -m0, m1) by { lemma_im_gcd_sv(g, Sign::Negative, m0, Sign::Positive, m1); }
+    assert forall|g: int| #[trigger] gcdo_is_gcd(g, m0, m1) implies gcdo_is_gcd(g, m0, -m1) by { lemma_im_gcd_sv(g, Sign::Positive, m0, Sign::Negative, m1); }
+    assert forall|g: int| #[trigger] gcdo_is_gcd(g, m0, m1) implies gcdo_is_gcd(g, -m0, -m1) by { lemma_im_gcd_sv(g, Sign::Negative, m0, Sign::Negative, m1); }
+}
+pub proof fn lemma_im_gcd_sv(g: int, s0: Sign, m0: int, s1: Sign, m1: int)
+    requires gcdo_is_gcd(g, m0, m1),
+    ensures gcdo_is_gcd(g, sv(s0, m0), sv(s1, m1)),
+{
+    lemma_im_sv_mod(s0, m0, g); lemma_im_sv_mod(s1, m1, g);
+    assert forall|d: int| d >= 1 && #[trigger] (sv(s0, m0) % d) == 0 && sv(s1, m1) % d == 0 implies g % d == 0 by {
+        lemma_im_sv_mod(s0, m0, d); lemma_im_sv_mod(s1, m1, d);
+        assert(m0 % d == 0 && m1 % d == 0);
     }
 }
 /// Bezout identity of the magnitudes ==> of the signed numbers with the cofactors multiplied by the signs
